@@ -211,12 +211,17 @@ func (e *c15Env) c16Check(root int, path []int) (res c15Result) {
 		res.PostHash = res.PreHash
 		return
 	}
-	postDump, err := a.dump()
+	postDump, err := a.dumpHash()
 	if err != nil {
 		add("dump_failed", label, err.Error())
 		return
 	}
 	res.PostHash = postDump.Hash
+	if strings.HasPrefix(res.Ret, "ERR: ") && postDump.Hash != preDump.Hash {
+		if full, err := a.dump(); err == nil {
+			postDump = full
+		}
+	}
 	postV, postIds := c16Invariants(a.s.data)
 	if len(path) == 0 {
 		for desc, kind := range postV {
